@@ -1,86 +1,241 @@
 import CTV.Lemmas.AddChain
+import CTV.Lemmas.AddChainRfc
 /-!
 # C01 — an issued SCT binds the submitted entry, the stored leaf and the log key
 
-Theorems over `CTV.Model.AddChain`: `addChainInternal` after chain validation, against a de-duplicating
-backend, for every history of submissions.  The byte layouts are the RFC 6962 ones (section `Rfc` of the
-model, written from the RFC text); the hash `H`, the signer and the precertificate TBS transformation are
-parameters (`Cfg`).  The model is tied to the handler by the C01 correspondence run, which also checks the
-same clauses on the real outputs with an independent client.
+Theorems over `CTV.Model.AddChain`: `addChainInternal` after chain validation, against a de-duplicating backend, for
+every history of submissions.  The byte layouts are the RFC 6962 ones (section `Rfc` of the model, written from the
+RFC text).  **Regenerated** from the Go source on every run (`Gen.AddChain`, `extract/k_addchain.go`) and used by the
+model: the millisecond conversion, the entry-type selection, every guard of `MerkleTreeLeafFromChain` and the chain
+positions it reads, the positions `BuildLogLeaf` takes leaf and extra data from, the signature-algorithm type switch,
+the hash-algorithm constant; and, as pinned source facts, which value is hashed for the issuer key hash / the identity
+hash / the log id, which leaf the SCT is built from and that one `signer` both signs and names the log.
+The hash `H`, the key scheme and the precertificate TBS transformation (C03) are parameters.
 -/
 namespace C01
 open CTV CTV.Model.AddChain
 
-/-- An abstract signature scheme for the log key: whatever the signer returns for a digest verifies. -/
-structure Scheme (cfg : Cfg) where
-  verify : Bytes → Bytes → Bool
-  correct : ∀ d, verify d (cfg.sign d) = true
+/-! ## What the code hashes, signs and builds from (regenerated source facts) -/
 
-/-- Identity hashes identify entries within the history: two submissions whose leaf certificates have the same
-hash derive the same entry.  (Collision-freeness of `H` on the submitted leaf certificates, and — for
-precertificates — the same leaf never arriving with two different issuers.) -/
-def Consistent (cfg : Cfg) (U : List Submit) : Prop :=
-  ∀ a ∈ U, ∀ b ∈ U, ∀ la lb, a.path.head? = some la → b.path.head? = some lb → cfg.H la.der = cfg.H lb.der →
-    entryOf cfg a.path a.isPrecert = entryOf cfg b.path b.isPrecert
+/-- The values the handler's helpers read are the ones the model uses: the X.509 entry is `chain[0].Raw`; the issuer key
+hash is over `issuer.RawSubjectPublicKeyInfo` (the bytes in the issuer's certificate, not a re-encoding); the TBS
+comes from `BuildPrecertTBS(cert.RawTBSCertificate, preIssuer)`; the identity hash is over the certificate's DER
+(`cert.Data`); the SCT is built from the leaf **returned** by the backend and takes timestamp and extensions from
+it. -/
+theorem sources_as_modelled :
+    ("Data", "chain[0].Raw") ∈ Gen.mtlFields ∧ ("TBSCertificate", "defangedTBS") ∈ Gen.mtlFields ∧
+    Gen.mtlKeyHashOf = "issuer.RawSubjectPublicKeyInfo" ∧ Gen.mtlTBSArgs = "cert.RawTBSCertificate, preIssuer" ∧
+    Gen.idHashOf = "cert.Data" ∧
+    Gen.sctLeafSource = "rsp.QueuedLeaf.Leaf.LeafValue" ∧ Gen.sctBuiltFrom = "&loggedLeaf" ∧
+    ("Timestamp", "leaf.TimestampedEntry.Timestamp") ∈ Gen.sctFields ∧ ("Extensions", "leaf.TimestampedEntry.Extensions") ∈ Gen.sctFields := by
+  decide
 
-/-- **queued_leaf.** On success the leaf handed to the backend is the RFC 6962 `MerkleTreeLeaf` of the entry
-derived from the path at the request's clock value, it is identified by the hash of the submitted leaf
-certificate, and its extra data is the rest of the validated path — root included, since the path ends in
-the pool (C02 `admit_sound`) — in the `certificate_chain` / `PrecertChainEntry` layout. -/
-theorem queued_leaf (cfg : Cfg) (st st' : State) (now : Nat) (path : List Cert) (pre : Bool) (sct : Sct) (q : Stored)
+/-- **One key.** `buildV1SCT` signs with `signer` and computes the log id from `signer.Public()`, and `GetCTLogID` is
+SHA-256 of `x509.MarshalPKIXPublicKey` of that key: the model's single `cfg.k` with `logID = H (spkiOf (pub k))` and
+`signature = sign k …` is what the code does. -/
+theorem one_key : Gen.sctSigner = "signer" ∧ Gen.sctLogIDOf = "signer.Public()" ∧
+    Gen.logIDBytes = "x509.MarshalPKIXPublicKey(pk)" ∧ Gen.logIDOf = "pubBytes" ∧
+    ("Signature", "tls.SignatureAlgorithmFromPubKey(signer.Public())") ∈ Gen.sctFields ∧ ("Hash", "tls.SHA256") ∈ Gen.sctFields := by
+  decide
+
+/-- The clock conversion (regenerated `uint64(UnixNano() / millisPerNano)`): for a clock at or after the epoch the
+timestamp is the number of whole milliseconds; it always fits the 8-byte field. -/
+theorem timestamp_conversion (n : Int) :
+    (Gen.timeMillis n).toNat < 2 ^ 64 ∧ (0 ≤ n → n < 2 ^ 63 → Gen.timeMillis n = n / 1000000) := by
+  refine ⟨timeMillis_lt n, ?_⟩
+  intro h0 h1
+  unfold Gen.timeMillis Gen.millisPerNano U64.wrap I64.div I64.wrap64
+  rw [Int.tdiv_eq_ediv_of_nonneg h0]
+  omega
+
+/-- before the epoch the division truncates toward zero and the conversion to uint64 wraps -/
+example : Gen.timeMillis (-1) = 0 ∧ Gen.timeMillis (-1000000000) = 2 ^ 64 - 1000 ∧ Gen.timeMillis 999999 = 0 ∧ Gen.timeMillis 1000000 = 1 := by decide
+
+/-- **One layout.** The model's leaf, signature input and certificate chain are the ones of the shared RFC 6962 wire
+specification `CTV/Rfc6962/Wire.lean` — for which property C04 proves (`C04.enc_merkleTreeLeaf`, `enc_sctSigInput`,
+`enc_certChain`) that they are what `tls.Marshal` produces from the **regenerated struct tags** of `ct.MerkleTreeLeaf`,
+`ct.CertificateTimestamp`, `ct.CertificateChain`. -/
+theorem layouts_are_rfc_wire (ts : Nat) (e : Entry) (ext : Bytes) (hts : ts < 2 ^ 64) (hw : e.wf) (hx : ext.length < 2 ^ 16) :
+    Rfc.merkleTreeLeaf ⟨0, ⟨ts, toRfc e, ext⟩⟩ = some (merkleTreeLeaf ts e ext) ∧
+    Rfc.sctSigInput ⟨0, ts, toRfc e, ext⟩ = some (sctSigInput ts e ext) ∧
+    ∀ cs b, encodeChain cs = some b → Rfc.certChain cs = some b :=
+  ⟨merkleTreeLeaf_is_rfc ts e ext hts hw hx, sctSigInput_is_rfc ts e ext hts hw hx, encodeChain_is_rfc⟩
+
+/-! ## The entry -/
+
+/-- **entryOf_x509** (over the regenerated guards): on the add-chain route the entry of a non-empty path is the DER of
+its first certificate. -/
+theorem entryOf_x509 (cfg : Cfg) (leaf : Cert) (chain : List Cert) : entryOf cfg (leaf :: chain) false = some (.x509 leaf.der) := by
+  unfold entryOf
+  simp [Gen.etypeOf, Gen.mtlEmpty, Gen.mtlIsX509, Gen.mtlX509Idx]
+  omega
+
+/-- **entryOf_precert** (over the regenerated guards and positions): the entry of a precertificate path is
+`(H (SubjectPublicKeyInfo of the final issuer), de-poisoned TBS)` — with a direct issuer that issuer (position 1) and
+the TBS with only the poison removed; with a Precertificate Signing Certificate (CT extended key usage at position 1)
+the certificate at position 2 and the TBS re-targeted; no entry when the signing certificate ends the path, for a
+single certificate, or for the empty path. -/
+theorem entryOf_precert (cfg : Cfg) (leaf issuer : Cert) (more : List Cert) :
+    (issuer.isPreIssuer = false →
+      entryOf cfg (leaf :: issuer :: more) true = (cfg.deTBS leaf.tbs none).map (.precert (cfg.H issuer.spki))) ∧
+    (issuer.isPreIssuer = true → ∀ final rest, more = final :: rest →
+      entryOf cfg (leaf :: issuer :: more) true = (cfg.deTBS leaf.tbs (some issuer)).map (.precert (cfg.H final.spki))) ∧
+    (issuer.isPreIssuer = true → more = [] → entryOf cfg (leaf :: issuer :: more) true = none) ∧
+    entryOf cfg [leaf] true = none ∧ entryOf cfg [] true = none ∧ entryOf cfg [] false = none := by
+  have h2 : ¬ ((((leaf :: issuer :: more).length : Nat) : Int) < 2) := by simp; omega
+  refine ⟨?_, ?_, ?_, ?_, ?_, ?_⟩
+  · intro h
+    unfold entryOf
+    simp [Gen.etypeOf, Gen.mtlEmpty, Gen.mtlIsX509, Gen.mtlNotPrecert, Gen.mtlNoIssuer, Gen.mtlPrecertIdx, Gen.mtlIssuerIdx,
+      Gen.mtlIsPreIssuer, Gen.acX509EntryType, Gen.acPrecertEntryType, h, List.length_cons]
+    rw [if_neg (by omega), if_neg (by omega)]
+  · intro h final rest hm
+    subst hm
+    unfold entryOf
+    simp [Gen.etypeOf, Gen.mtlEmpty, Gen.mtlIsX509, Gen.mtlNotPrecert, Gen.mtlNoIssuer, Gen.mtlPrecertIdx, Gen.mtlIssuerIdx,
+      Gen.mtlIsPreIssuer, Gen.mtlNoFinalIssuer, Gen.mtlFinalIssuerIdx, Gen.acX509EntryType, Gen.acPrecertEntryType, h, List.length_cons]
+    rw [if_neg (by omega), if_neg (by omega), if_neg (by omega)]
+  · intro h hm
+    subst hm
+    unfold entryOf
+    simp [Gen.etypeOf, Gen.mtlEmpty, Gen.mtlIsX509, Gen.mtlNotPrecert, Gen.mtlNoIssuer, Gen.mtlPrecertIdx, Gen.mtlIssuerIdx,
+      Gen.mtlIsPreIssuer, Gen.mtlNoFinalIssuer, Gen.acX509EntryType, Gen.acPrecertEntryType, h]
+  · unfold entryOf
+    simp [Gen.etypeOf, Gen.mtlEmpty, Gen.mtlIsX509, Gen.mtlNotPrecert, Gen.mtlNoIssuer, Gen.acX509EntryType, Gen.acPrecertEntryType]
+  · unfold entryOf; simp [Gen.mtlEmpty]
+  · unfold entryOf; simp [Gen.mtlEmpty]
+
+/-! ## The queued leaf -/
+
+/-- **queued_leaf.** On success the leaf handed to the backend is the RFC 6962 `MerkleTreeLeaf` of the entry derived from
+the path at the request's clock (in milliseconds, by the regenerated conversion) and decodes back to exactly those
+fields; it is identified by the hash of the certificate at the regenerated leaf position (0); its extra data is the
+`certificate_chain` (behind the `pre_certificate` for a precertificate) of the certificates from the regenerated
+position 1 on — every one of them, so the last certificate of the path is the last of the extra data (the path ends
+in the trusted pool by C02 `admit_sound`; that the path *is* the validated one is an input of this model and is
+checked on the real handler by the harness) — and that vector decodes back to exactly those certificates. -/
+theorem queued_leaf (cfg : Cfg) (st st' : State) (now : Int) (path : List Cert) (pre : Bool) (sct : Sct) (q : Stored)
     (h : addChain cfg st now path pre = (.ok sct q, st')) :
-    ∃ l chain e, path = l :: chain ∧ entryOf cfg path pre = some e ∧
-      q.leafValue = merkleTreeLeaf now e [] ∧
-      q.idHash = cfg.H l.der ∧
-      q.extraData = (if pre then precertChainEntry l.der (chain.map (·.der)) else certChain (chain.map (·.der))) ∧
-      decodeLeaf q.leafValue = some (now, e, []) := by
-  obtain ⟨l, chain, e, _, hp, he, hts, hw, hq, _⟩ := addChain_ok h
+    ∃ leaf chain e, path = leaf :: chain ∧ entryOf cfg path pre = some e ∧
+      q.leafValue = merkleTreeLeaf (Gen.timeMillis now).toNat e [] ∧
+      decodeLeaf q.leafValue = some ((Gen.timeMillis now).toNat, e, []) ∧
+      q.idHash = cfg.H leaf.der ∧
+      q.extraData = (if pre then vec 3 leaf.der ++ certChain (chain.map (·.der)) else certChain (chain.map (·.der))) ∧
+      readOpaque 3 (certChain (chain.map (·.der))) = some ((chain.map (·.der)).flatMap (vec 3), []) ∧
+      decodeCerts chain.length ((chain.map (·.der)).flatMap (vec 3)) = some (chain.map (·.der)) ∧
+      (chain ≠ [] → (chain.map (·.der)).getLast? = path.getLast?.map (·.der)) := by
+  obtain ⟨leaf, e, _, extra, hleaf, he, hw, hex, hq, _⟩ := addChain_ok h
+  have hpath : ∃ chain, path = leaf :: chain := by
+    cases path with
+    | nil => simp [Gen.leafCertIdx] at hleaf
+    | cons a t => simp [Gen.leafCertIdx] at hleaf; exact ⟨t, by rw [hleaf]⟩
+  obtain ⟨chain, rfl⟩ := hpath
+  have hdrop : ((leaf :: chain).drop Gen.extraFromIdx) = chain := by simp [Gen.extraFromIdx]
+  rw [hdrop] at hex
   subst hq
-  exact ⟨l, chain, e, hp, he, rfl, rfl, rfl, decodeLeaf_merkleTreeLeaf now e [] hts hw (by simp)⟩
+  have hchain : ∃ b, encodeChain (chain.map (·.der)) = some b ∧
+      extra = (if pre then vec 3 leaf.der ++ b else b) := by
+    unfold encodeExtra at hex
+    cases pre with
+    | true =>
+      simp only [if_true] at hex ⊢
+      split at hex
+      · cases hc : encodeChain (chain.map (·.der)) with
+        | none => simp [hc] at hex
+        | some b => simp [hc] at hex; exact ⟨b, rfl, hex.symm⟩
+      · simp at hex
+    | false => exact ⟨extra, by simpa using hex, by simp⟩
+  obtain ⟨b, hb, hextra⟩ := hchain
+  obtain ⟨hb1, hb2, hb3⟩ := encodeChain_decodes hb
+  subst hb1
+  refine ⟨leaf, chain, e, rfl, he, rfl, decodeLeaf_merkleTreeLeaf _ e [] (timeMillis_lt now) hw (by simp), rfl, hextra, hb2,
+    by simpa using hb3, ?_⟩
+  intro hne
+  obtain ⟨c, cs, rfl⟩ := List.exists_cons_of_ne_nil hne
+  rw [List.getLast?_cons_cons, List.getLast?_map]
 
-/-- **sct_binds.** For every history `pre` and every request `sub` after it that is answered 200: the SCT's id
-is `H` of the log key, its version is v1, and its signature verifies under the log key over the digest of the RFC
-6962 signature input built from **the entry derived from the submitted path** at **the SCT's timestamp**
-(with empty extensions) — whether the leaf was new or already logged. -/
-theorem sct_binds (cfg : Cfg) (S : Scheme cfg) (pre : List Submit) (sub : Submit) (hc : Consistent cfg (pre ++ [sub]))
-    (sct : Sct) (q : Stored) (st' : State)
+/-! ## The SCT -/
+
+/-- **sct_binds_first** (unconditional, every history): a 200 answer carries the hash of **the log key's**
+SubjectPublicKeyInfo as id, version v1, empty extensions, the SHA-256 / key-type algorithm pair, and a signature
+that verifies **under that same key** over the digest of the RFC 6962 signature input built from the entry and clock
+of *a submission of the history with the same identity hash* (the request itself when the leaf is new, the one that
+stored the leaf otherwise), at the SCT's timestamp. -/
+theorem sct_binds_first (cfg : Cfg) (pre : List Submit) (sub : Submit) (sct : Sct) (q : Stored) (st' : State)
     (h : addChain cfg (run cfg [] pre).2 sub.now sub.path sub.isPrecert = (.ok sct q, st')) :
-    sct.logID = cfg.H cfg.logSPKI ∧ sct.version = 0 ∧ sct.extensions = [] ∧
-    ∃ e, entryOf cfg sub.path sub.isPrecert = some e ∧
-      sct.signedDigest = cfg.H (sctSigInput sct.timestamp e []) ∧
-      S.verify (cfg.H (sctSigInput sct.timestamp e [])) sct.signature = true := by
+    sct.logID = cfg.H (cfg.K.spkiOf (cfg.K.pub cfg.k)) ∧ sct.version = 0 ∧ sct.extensions = [] ∧
+    sct.hashAlg = 4 ∧ sct.sigAlg = sigAlgOf (cfg.K.kind (cfg.K.pub cfg.k)) ∧
+    ∃ sub0 ∈ pre ++ [sub], ∃ l0 e0, sub0.path[Gen.leafCertIdx]? = some l0 ∧ cfg.H l0.der = q.idHash ∧
+      entryOf cfg sub0.path sub0.isPrecert = some e0 ∧
+      sct.timestamp = (Gen.timeMillis sub0.now).toNat ∧
+      sct.signedDigest = cfg.H (sctSigInput sct.timestamp e0 []) ∧
+      cfg.K.verify (cfg.K.pub cfg.k) (cfg.H (sctSigInput sct.timestamp e0 [])) sct.signature = true := by
   have hinv : Inv cfg (pre ++ [sub]) (run cfg [] pre).2 :=
     run_inv cfg _ pre [] (by intro s hs; simp at hs) (fun x hx => List.mem_append_left _ hx)
-  obtain ⟨l, chain, e, e', hp, he, hts, hw, hq, _, hdec, hv, hid, hdig, hsig⟩ := addChain_ok h
-  have hfind := (queueLeaf_spec (run cfg [] pre).2 q)
-  -- the returned leaf: the queued one, or the one stored earlier under the same identity hash
-  have hret : ∃ ts, ts < 2 ^ 64 ∧ (queueLeaf (run cfg [] pre).2 q).1.leafValue = merkleTreeLeaf ts e [] := by
-    rcases hfind.2 with ⟨hold, _⟩ | ⟨_, hnew, _⟩
+  obtain ⟨leaf, e, e', extra, hleaf, he, hw, _, hq, _, hdec, hv, hid, hha, hsa, hdig, hsig⟩ := addChain_ok h
+  have hret : ∃ sub0 ∈ pre ++ [sub], ∃ l0 e0, sub0.path[Gen.leafCertIdx]? = some l0 ∧ cfg.H l0.der = q.idHash ∧
+      entryOf cfg sub0.path sub0.isPrecert = some e0 ∧ e0.wf ∧
+      (queueLeaf (run cfg [] pre).2 q).1.leafValue = merkleTreeLeaf (Gen.timeMillis sub0.now).toNat e0 [] := by
+    rcases (queueLeaf_spec (run cfg [] pre).2 q).2 with ⟨hold, _⟩ | ⟨_, hnew, _⟩
     · obtain ⟨hmem, hidh⟩ := find_some hold
-      obtain ⟨sub0, hs0, l0, e0, hl0, hid0, he0, hts0, _, hlv0⟩ := hinv _ hmem
-      have : entryOf cfg sub0.path sub0.isPrecert = entryOf cfg sub.path sub.isPrecert :=
-        hc sub0 hs0 sub (by simp) l0 l hl0 (by rw [hp]; rfl) (by rw [← hid0, hidh, hq])
-      rw [he0, he] at this
-      cases this
-      exact ⟨sub0.now, hts0, hlv0⟩
-    · exact ⟨sub.now, hts, by rw [hnew, hq]⟩
-  obtain ⟨ts, hts', hlv⟩ := hret
-  rw [hlv, decodeLeaf_merkleTreeLeaf ts e [] hts' hw (by simp)] at hdec
+      obtain ⟨sub0, hs0, l0, e0, hl0, hid0, he0, hw0, hlv0⟩ := hinv _ hmem
+      exact ⟨sub0, hs0, l0, e0, hl0, by rw [← hid0, hidh], he0, hw0, hlv0⟩
+    · exact ⟨sub, by simp, leaf, e, hleaf, by rw [hq], he, hw, by rw [hnew, hq]⟩
+  obtain ⟨sub0, hs0, l0, e0, hl0, hid0, he0, hw0, hlv⟩ := hret
+  rw [hlv, decodeLeaf_merkleTreeLeaf _ e0 [] (timeMillis_lt _) hw0 (by simp)] at hdec
   simp only [Option.some.injEq, Prod.mk.injEq] at hdec
   obtain ⟨h1, h2, h3⟩ := hdec
   subst h2
-  refine ⟨hid, hv, h3.symm, e, he, ?_, ?_⟩
+  refine ⟨hid, hv, h3.symm, by rw [hha]; decide, hsa, sub0, hs0, l0, e0, hl0, hid0, he0, h1.symm, ?_, ?_⟩
   · rw [hdig, ← h3]
-  · rw [hsig, hdig, ← h3]; exact S.correct _
+  · rw [hsig, hdig, ← h3]; exact cfg.K.correct _ _
 
-/-- **dup_repeats_ts** (one request): if the identity hash is already stored, the request leaves the backend
-state untouched and the SCT carries the timestamp of the stored leaf; if it is not, the SCT carries the
-request's own clock value and exactly the queued leaf is added. -/
-theorem dup_repeats_ts_step (cfg : Cfg) (st st' : State) (now : Nat) (path : List Cert) (pre : Bool) (sct : Sct) (q : Stored)
+/-- Identity hashes identify entries within the history: two submissions whose leaf certificates have the same hash
+derive the same entry.  It bundles (a) collision-freeness of `H` on the submitted leaf certificates — a crypto
+assumption — and (b) *the same leaf certificate never arrives through two issuer routes* — a restriction on
+histories that real submitters can violate (see FULL below). -/
+def Consistent (cfg : Cfg) (U : List Submit) : Prop :=
+  ∀ a ∈ U, ∀ b ∈ U, ∀ la lb, a.path[Gen.leafCertIdx]? = some la → b.path[Gen.leafCertIdx]? = some lb → cfg.H la.der = cfg.H lb.der →
+    entryOf cfg a.path a.isPrecert = entryOf cfg b.path b.isPrecert
+
+/- FULL (the property's first sentence, literally): for every history `pre` and every request `sub` answered 200,
+     `∃ e, entryOf cfg sub.path sub.isPrecert = some e ∧ verify (pub k) (H (sctSigInput sct.timestamp e [])) sct.signature`
+   — the signature verifies over the entry derived from **the submitted chain**.
+   FALSE of the code (and of the model): de-duplication is by the hash of the leaf certificate alone, but a
+   precertificate's entry also depends on the issuer route.  A precertificate whose Precertificate Signing Certificate
+   key is certified by two CAs, submitted first through CA 1 and then through CA 2, gets on the second request the SCT
+   of the first entry (issuer key hash and issuer name of CA 1), which does not verify over the entry an RFC 6962
+   client derives from the second chain.  Known finding `two-route precert` (no small patch: the de-duplication key
+   would have to include the issuer key hash).  The counter-example is `exTwoRoutes` below.  Proved: the statement
+   under `Consistent`, which excludes exactly this. -/
+
+/-- **sct_binds_partial.** Under `Consistent`, the signature verifies over the entry derived from the submitted path
+itself, at the SCT's timestamp — new leaf or duplicate. -/
+theorem sct_binds_partial (cfg : Cfg) (pre : List Submit) (sub : Submit) (hc : Consistent cfg (pre ++ [sub]))
+    (sct : Sct) (q : Stored) (st' : State)
+    (h : addChain cfg (run cfg [] pre).2 sub.now sub.path sub.isPrecert = (.ok sct q, st')) :
+    sct.logID = cfg.H (cfg.K.spkiOf (cfg.K.pub cfg.k)) ∧
+    ∃ e, entryOf cfg sub.path sub.isPrecert = some e ∧
+      sct.signedDigest = cfg.H (sctSigInput sct.timestamp e []) ∧
+      cfg.K.verify (cfg.K.pub cfg.k) (cfg.H (sctSigInput sct.timestamp e [])) sct.signature = true := by
+  obtain ⟨hid, _, _, _, _, sub0, hs0, l0, e0, hl0, hid0, he0, _, hdig, hver⟩ := sct_binds_first cfg pre sub sct q st' h
+  obtain ⟨leaf, e, _, _, hleaf, he, _, _, hq, _⟩ := addChain_ok h
+  have : entryOf cfg sub0.path sub0.isPrecert = entryOf cfg sub.path sub.isPrecert :=
+    hc sub0 hs0 sub (by simp) l0 leaf hl0 hleaf (by rw [hid0, hq])
+  rw [he0, he] at this
+  cases this
+  exact ⟨hid, e0, he, hdig, hver⟩
+
+/-! ## Duplicates -/
+
+/-- **dup_repeats_ts** (one request): if the identity hash is already stored, the request leaves the backend state
+untouched and the SCT carries the timestamp of the stored leaf; if it is not, the SCT carries the request's own
+clock value and exactly the queued leaf is added. -/
+theorem dup_repeats_ts_step (cfg : Cfg) (st st' : State) (now : Int) (path : List Cert) (pre : Bool) (sct : Sct) (q : Stored)
     (h : addChain cfg st now path pre = (.ok sct q, st')) :
     (∀ s, st.find q.idHash = some s → st' = st ∧ ∃ e x, decodeLeaf s.leafValue = some (sct.timestamp, e, x)) ∧
-    (st.find q.idHash = none → st' = st ++ [q] ∧ sct.timestamp = now) := by
-  obtain ⟨l, chain, e, e', hp, he, hts, hw, hq, hst, hdec, _⟩ := addChain_ok h
+    (st.find q.idHash = none → st' = st ++ [q] ∧ sct.timestamp = (Gen.timeMillis now).toNat) := by
+  obtain ⟨leaf, e, e', extra, _, he, hw, _, hq, hst, hdec, _⟩ := addChain_ok h
   have hspec := queueLeaf_spec st q
   constructor
   · intro s hs
@@ -92,18 +247,17 @@ theorem dup_repeats_ts_step (cfg : Cfg) (st st' : State) (now : Nat) (path : Lis
     rcases hspec.2 with ⟨hold, _⟩ | ⟨_, hnew, e2⟩
     · rw [hn] at hold; cases hold
     · refine ⟨by rw [hst, e2], ?_⟩
-      rw [hnew, hq, decodeLeaf_merkleTreeLeaf now e [] hts hw (by simp)] at hdec
+      rw [hnew, hq, decodeLeaf_merkleTreeLeaf _ e [] (timeMillis_lt now) hw (by simp)] at hdec
       simp only [Option.some.injEq, Prod.mk.injEq] at hdec
       exact hdec.1.symm
 
-/-- **dup_repeats_ts** (histories, by induction over the requests in between): two requests answered 200 for the
-same identity hash carry the same timestamp, however many other requests — accepted or refused — lie between
-them. -/
+/-- **dup_repeats_ts** (histories, by induction over the requests in between): two requests answered 200 for the same
+identity hash carry the same timestamp, however many other requests — accepted or refused — lie between them. -/
 theorem dup_repeats_ts (cfg : Cfg) (pre mid : List Submit) (a b : Submit) (sa sb : Sct) (qa qb : Stored) (st2 st4 : State)
     (ha : addChain cfg (run cfg [] pre).2 a.now a.path a.isPrecert = (.ok sa qa, st2))
     (hb : addChain cfg (run cfg st2 mid).2 b.now b.path b.isPrecert = (.ok sb qb, st4))
     (hid : qa.idHash = qb.idHash) : sb.timestamp = sa.timestamp := by
-  obtain ⟨_, _, _, ea, _, _, _, _, _, hst2, hdeca, _⟩ := addChain_ok ha
+  obtain ⟨_, _, ea, _, _, _, _, _, _, hst2, hdeca, _⟩ := addChain_ok ha
   have hfa : st2.find qa.idHash = some (queueLeaf (run cfg [] pre).2 qa).1 := by
     rw [hst2]; exact (queueLeaf_spec _ qa).1
   have hf3 := run_find_mono cfg mid st2 hfa
@@ -113,50 +267,58 @@ theorem dup_repeats_ts (cfg : Cfg) (pre mid : List Submit) (a b : Submit) (sa sb
   simp only [Option.some.injEq, Prod.mk.injEq] at hd
   exact hd.1.symm
 
-/-- **entryOf_precert.** The entry of a precertificate path is `(H(SubjectPublicKeyInfo of the final issuer),
-de-poisoned TBS)`: with a direct issuer that issuer's key and the TBS with only the poison removed; with a
-Precertificate Signing Certificate (CT extended key usage) the key of *its* issuer and the TBS re-targeted
-to that issuer.  (The TBS transformation itself is property C03.) -/
-theorem entryOf_precert (cfg : Cfg) (leaf issuer : Cert) (more : List Cert) :
-    (issuer.isPreIssuer = false →
-      entryOf cfg (leaf :: issuer :: more) true = (cfg.deTBS leaf.tbs none).map (.precert (cfg.H issuer.spki))) ∧
-    (issuer.isPreIssuer = true → ∀ final rest, more = final :: rest →
-      entryOf cfg (leaf :: issuer :: more) true = (cfg.deTBS leaf.tbs (some issuer)).map (.precert (cfg.H final.spki))) ∧
-    (issuer.isPreIssuer = true → more = [] → entryOf cfg (leaf :: issuer :: more) true = none) := by
-  refine ⟨?_, ?_, ?_⟩
-  · intro h; simp [entryOf, h]
-  · intro h final rest hm; subst hm; simp [entryOf, h]
-  · intro h hm; subst hm; simp [entryOf, h]
+/-! ## Non-vacuity: a toy configuration (`H` = byte sum repeated to 32, signature = digest, verification = equality) -/
 
-/-- An X.509 entry is the submitted leaf certificate itself. -/
-theorem entryOf_x509 (cfg : Cfg) (leaf : Cert) (chain : List Cert) : entryOf cfg (leaf :: chain) false = some (.x509 leaf.der) := by
-  cases chain <;> rfl
-
-/-! ### non-vacuity: a toy configuration (`H` = first byte repeated to 32, identity signer) -/
-
-def exCfg : Cfg := { H := fun b => List.replicate 32 (b.headD 0), logSPKI := [1, 2, 3], sign := id, deTBS := fun t p => some (t ++ (p.map (·.der)).getD []) }
-def exScheme : Scheme exCfg := ⟨fun d s => d == s, by intro d; simp [exCfg]⟩
+def exK : KeyScheme := { Priv := Bytes, Pub := Bytes, pub := id, spkiOf := id, kind := fun _ => "*ecdsa.PublicKey", sign := fun k d => k ++ d, verify := fun p d s => s == p ++ d, correct := by intro k d; simp }
+def exCfg : Cfg := { H := fun b => List.replicate 32 (UInt8.ofNat (b.foldl (fun a x => a + x.toNat) 0)), K := exK, k := [1, 2, 3], deTBS := fun t p => some (t ++ (p.map (·.der)).getD []) }
 def exLeaf : Cert := ⟨[10, 11, 12], [20], [30, 31], false⟩
 def exPre : Cert := ⟨[13, 14], [21], [32], false⟩
 def exPreIssuer : Cert := ⟨[40], [41], [42], true⟩
+def exPreIssuer2 : Cert := ⟨[45], [41], [42], true⟩
 def exIssuer : Cert := ⟨[50], [51, 52, 53], [54], false⟩
-def exSub1 : Submit := ⟨1000, [exLeaf, exIssuer], false⟩
-def exSub2 : Submit := ⟨2000, [exLeaf, exIssuer], false⟩
-def exSub3 : Submit := ⟨3000, [exPre, exPreIssuer, exIssuer], true⟩
+def exIssuer2 : Cert := ⟨[60], [61, 62], [64], false⟩
+def exSub1 : Submit := ⟨1000000000, [exLeaf, exIssuer], false⟩
+def exSub2 : Submit := ⟨2000000000, [exLeaf, exIssuer], false⟩
+def exSub3 : Submit := ⟨3000999999, [exPre, exPreIssuer, exIssuer], true⟩
+/-- the same precertificate through another route: signing certificate certified by `exIssuer2` -/
+def exSub4 : Submit := ⟨4000000000, [exPre, exPreIssuer2, exIssuer2], true⟩
 def tsOf : Rsp → Option Nat
   | .ok s _ => some s.timestamp
   | _ => none
 
 /-- first submission, a precertificate through a pre-issuer, then the first leaf again a second later: it gets the first timestamp -/
 example : (run exCfg [] [exSub1, exSub3, exSub2]).1.map tsOf = [some 1000, some 3000, some 1000] := by decide
-example : entryOf exCfg exSub3.path true = some (.precert (List.replicate 32 51) [32, 40]) := by decide
-example : tsOf (addChain exCfg (run exCfg [] [exSub1, exSub3]).2 exSub2.now exSub2.path exSub2.isPrecert).1 = some 1000 := by decide
-example : Consistent exCfg ([exSub1, exSub3] ++ [exSub2]) := by
+example : entryOf exCfg exSub3.path true = some (.precert (List.replicate 32 156) [32, 40]) := by decide
+example : decodeLeaf (merkleTreeLeaf 7 (.precert (List.replicate 32 9) [1, 2]) [5]) = some (7, .precert (List.replicate 32 9) [1, 2], [5]) := by decide
+def exConsistent : Consistent exCfg ([exSub1, exSub3] ++ [exSub2]) := by
   intro a ha b hb la lb hla hlb hh
   simp only [List.cons_append, List.nil_append, List.mem_cons, List.not_mem_nil, or_false] at ha hb
   rcases ha with rfl | rfl | rfl <;> rcases hb with rfl | rfl | rfl <;>
-    simp only [exSub1, exSub2, exSub3, List.head?_cons, Option.some.injEq] at hla hlb <;> subst hla <;> subst hlb <;>
+    simp only [exSub1, exSub2, exSub3, Gen.leafCertIdx, List.getElem?_cons_zero, Option.some.injEq] at hla hlb <;> subst hla <;> subst hlb <;>
     first | rfl | (exfalso; revert hh; decide)
-example : decodeLeaf (merkleTreeLeaf 7 (.precert (List.replicate 32 9) [1, 2]) [5]) = some (7, .precert (List.replicate 32 9) [1, 2], [5]) := by decide
+
+/-- the theorems applied to a duplicate history: their hypotheses are jointly satisfiable -/
+def exDupOk : ∃ sct q st', addChain exCfg (run exCfg [] [exSub1, exSub3]).2 exSub2.now exSub2.path exSub2.isPrecert = (.ok sct q, st') :=
+  ⟨_, _, _, rfl⟩
+example : True := by
+  obtain ⟨sct, q, st', h⟩ := exDupOk
+  have h1 := sct_binds_first exCfg [exSub1, exSub3] exSub2 sct q st' h
+  have h2 := sct_binds_partial exCfg [exSub1, exSub3] exSub2 exConsistent sct q st' h
+  have h3 := queued_leaf exCfg _ st' exSub2.now exSub2.path exSub2.isPrecert sct q h
+  trivial
+
+/-- **The counter-example to FULL** (`exTwoRoutes`): the precertificate `exPre` through two routes.  The second request is
+answered 200 with the first route's timestamp, and its signed digest is NOT the digest of the signature input for
+the entry derived from the second chain. -/
+theorem exTwoRoutes :
+    ∃ sct q st', addChain exCfg (run exCfg [] [exSub3]).2 exSub4.now exSub4.path true = (.ok sct q, st') ∧
+      sct.timestamp = 3000 ∧
+      ∃ e, entryOf exCfg exSub4.path true = some e ∧ sct.signedDigest ≠ exCfg.H (sctSigInput sct.timestamp e []) ∧
+        ¬ Consistent exCfg ([exSub3] ++ [exSub4]) := by
+  refine ⟨_, _, _, rfl, by decide, .precert (List.replicate 32 123) [32, 45], by decide, by decide, ?_⟩
+  intro hc
+  have := hc exSub3 (by simp) exSub4 (by simp) exPre exPre rfl rfl rfl
+  revert this
+  decide
 
 end C01
